@@ -772,9 +772,19 @@ COMMON = dict(files=FILES, rule=RULE, classify=classify, search=search,
               trusted_base=["python re-statement of tagged length / zigzag / byte width used only by oracles and stream builders"],
               configs_quick=["pinned", "O0", "native"], configs_thorough=["pinned", "O0", "asan", "native"])
 
+# *_src theorems: about the Gallina renderings of the leaf functions regenerated from the current source on
+# every run (gen/c2coq_leaf.py -> coq/gen/Src_leaf_{delta,group,for}.v), proved equal to the hand model in LeafSrc*.v
+SRC_LEAF_TRUSTED = COMMON["trusted_base"] + [
+    "gen/c2coq.py + CSem.v for the *_src theorems (C-to-Gallina translator, clang 14 typed AST -> "
+    "coq/gen/Src_leaf_*.v via gen/c2coq_leaf.py; subset and assumptions in the translator's docstring; LP64, two's "
+    "complement, gcc's implementation-defined choices); the renderings are tied to the compiled C by the translator, "
+    "not by proof"]
+
 PARTS = {
-    "C02": dict(COMMON, coq_props=["Properties_C02_dfg"], generate=generate_C02, oracles=ORACLES_C02),
+    "C02": dict(COMMON, coq_props=["Properties_C02_dfg", "Properties_C02_dfg_src"], generate=generate_C02,
+                oracles=ORACLES_C02, trusted_base=SRC_LEAF_TRUSTED),
     "C03": dict(COMMON, coq_props=["Properties_C03_dfg"], generate=generate_C03, oracles=ORACLES_C03),
     "C13": dict(COMMON, coq_props=["Properties_C13_dfg"], generate=generate_C13, oracles=ORACLES_C13),
-    "C16": dict(COMMON, coq_props=["Properties_C16_dfg"], generate=generate_C16, oracles=ORACLES_C16),
+    "C16": dict(COMMON, coq_props=["Properties_C16_dfg", "Properties_C16_dfg_src"], generate=generate_C16,
+                oracles=ORACLES_C16, trusted_base=SRC_LEAF_TRUSTED),
 }
